@@ -48,6 +48,9 @@ def model_and_cases(ctx, n):
 def run(ctx):
     ctx.rule = ("TLC builds the complete state graph of the iterator machine (VekIter) for each dimension; behaviours "
                 "covering every transition are replayed on IntoIter<Tracked> of every vector type of that dimension; "
+                "the two-iterator machine (VekIterPair) enumerates pairs of cursor states (all pairs for dimensions <= 8, cursors at "
+                "most 1 (quick) / 3 (thorough) apart for 16..64) and the real iterators brought to those states are compared "
+                "with == and != in both orders: result = equality of the remaining sequences, reads only of live elements; "
                 "distinct non-trivial = behaviours (paths of the state graph ending in Drop) with at least 2 steps")
     dims = DIMS if ctx.tier == "thorough" else [2, 3, 4, 8, 16, 32, 64]
     with ThreadPoolExecutor(max_workers=4) as ex:
@@ -80,7 +83,44 @@ def run(ctx):
                     "notes": rep["notes"]})
     for m in rep["mismatches"]:
         ctx.violation(m["key"], "%s n=%s after %s: %s" % (m["ty"], m.get("n"), "/".join(m.get("path", [])[-6:]), m["what"]), m)
+    pairs(ctx)
     conversions(ctx)
+    os.remove(path)
+    os.remove(out)
+
+
+def pairs(ctx):
+    """B1: the two-iterator machine (VekIterPair): every pair of cursor states (dimensions <= 8) / every pair whose cursors
+    differ by at most BAND (16, 32, 64), compared on the real iterators of every vector type of that dimension."""
+    path = os.path.join(ctx.work, "iterpair_cases.txt")
+    thorough = ctx.tier == "thorough"
+
+    def model(n):
+        cfg = "MC_IterPair_%d%s" % (n, "_T" if thorough and n >= 16 else "")
+        p = os.path.join(ctx.work, "iterpair_%d.txt" % n)
+        r = core.tlc("VekIterPair", cfg, workers=2, out_path=p, timeout=1800)
+        core.tlc_ok(r, cfg)
+        return r, cfg, p
+    with ThreadPoolExecutor(max_workers=4) as ex:
+        res = list(ex.map(model, DIMS))
+    with open(path, "w") as f:
+        for r, cfg, p in res:
+            ctx.add_tlc(r, cfg, "exhaustive_model")
+            f.write(open(p).read())
+            os.remove(p)
+    out = path + ".rep.json"
+    core.vh(["replay", "iterpair", "--cases", path, "--out", out], timeout=2400)
+    rep = json.load(open(out))
+    ctx.traces += rep["tables"]
+    ctx.evals += rep["evals"]
+    for s in rep["samples"]:
+        ctx.sample(s)
+    if rep["nontrivial"] == 0:
+        ctx.vacuous.append("VekIterPair: no pair with equal remaining count and different cursors")
+    ctx.sub.append({"sub": "replay-iterpair", "kind": "spec_to_code_states", "state_pairs_x_types": rep["tables"], "comparisons": rep["evals"],
+                    "equal_count_different_cursor_pairs": rep["nontrivial"], "mismatches": rep["mismatch_count"]})
+    for m in rep["mismatches"]:
+        ctx.violation(m["key"], "%s: iterators at cursors %s and %s, %s: %s" % (m["ty"], m["a"], m["b"], m["form"], m["what"]), m)
     os.remove(path)
     os.remove(out)
 
